@@ -2,6 +2,7 @@ import CobyqaVerif.Alg.Solve
 import CobyqaVerif.Props.C04
 import CobyqaVerif.Alg.Tcg
 import CobyqaVerif.Alg.TcgImproveFast
+import CobyqaVerif.Alg.Ctcg
 import CobyqaVerif.Alg.Cauchy
 import CobyqaVerif.Alg.CauchyDir
 import CobyqaVerif.Alg.Spider
@@ -297,6 +298,77 @@ def doTcg (n fuel : ℕ) (parts : List String) : String :=
     | _, _, _, _, _ => "bad-op"
   | _ => "bad-op"
 
+/-- Gram-Schmidt on the normals of the working constraints (exact; dependent rows are skipped) -/
+def gramSchmidt {n : ℕ} (rows : List (Fin n → Rat)) : List (Fin n → Rat) :=
+  rows.foldl (fun us r =>
+    let r' := us.foldl (fun acc u => Cobyqa.Tcg.memo (acc - ((acc ⬝ᵥ u) / (u ⬝ᵥ u)) • u)) (Cobyqa.Tcg.memo r)
+    if (listFin n).all (fun i => r' i = 0) then us else us ++ [r']) []
+
+/-- the UNVERIFIED proposal for the projection onto the null space of the working constraints (`Alg/Ctcg.lean` uses it
+through `checkedProj`, which checks the answer exactly) -/
+def proposeProj {n m p : ℕ} (aub : Matrix (Fin m) (Fin n) Rat) (aeq : Matrix (Fin p) (Fin n) Rat)
+    (fl fu : Fin n → Bool) (fb : Fin m → Bool) (v : Fin n → Rat) : Fin n → Rat :=
+  let rows : List (Fin n → Rat) :=
+    ((listFin p).map fun k => fun i => aeq k i) ++
+    (((listFin m).filter fun j => !fb j).map fun j => fun i => aub j i) ++
+    (((listFin n).filter fun i => !(fl i && fu i)).map fun i => fun k => if k = i then 1 else 0)
+  (gramSchmidt rows).foldl (fun acc u => Cobyqa.Tcg.memo (acc - ((acc ⬝ᵥ u) / (u ⬝ᵥ u)) • u)) (Cobyqa.Tcg.memo v)
+
+def rankOf {n m p : ℕ} (aub : Matrix (Fin m) (Fin n) Rat) (aeq : Matrix (Fin p) (Fin n) Rat)
+    (fl fu : Fin n → Bool) (fb : Fin m → Bool) : ℕ :=
+  let rows : List (Fin n → Rat) :=
+    ((listFin p).map fun k => fun i => aeq k i) ++
+    (((listFin m).filter fun j => !fb j).map fun j => fun i => aub j i) ++
+    (((listFin n).filter fun i => !(fl i && fu i)).map fun i => fun k => if k = i then 1 else 0)
+  (gramSchmidt rows).length
+
+/-- `Alg/Ctcg.lean cloop`, pass by pass: the same loop condition and the same `citer`, but the state handed to each pass
+is read back from tables of its own components (an extensionally EQUAL state: every field is the function it was).
+Interpreted as written, `cloop` re-evaluates the whole history of a vector at every use of one of its components (the
+states are records of functions), which is exponential in the number of passes; the arguments of this function are
+evaluated once per pass. -/
+def runCtcgPasses {n m p : ℕ} (P : Cobyqa.Ctcg.CProb n m p Rat) (Q : Cobyqa.Tcg.Params n Rat) (O : Cobyqa.Ctcg.Oracle n m Rat)
+    (fuel : ℕ) (stepA gradA sdA : Array Rat) (flA fuA fbA : Array Bool) (residA : Array Rat) (k : ℕ) (reduct : Rat) :
+    Cobyqa.Ctcg.CSt n m Rat :=
+  let s : Cobyqa.Ctcg.CSt n m Rat :=
+    { step := fun i => stepA[i.val]!, grad := fun i => gradA[i.val]!, sd := fun i => sdA[i.val]!,
+      freeL := fun i => flA[i.val]!, freeU := fun i => fuA[i.val]!, freeUb := fun j => fbA[j.val]!,
+      resid := fun j => residA[j.val]!, k := k, reduct := reduct }
+  match fuel with
+  | 0 => s
+  | fuel' + 1 =>
+    if s.k + O.nAct s.freeL s.freeU s.freeUb < n then
+      match Cobyqa.Ctcg.citer P Q O s with
+      | .inl t => runCtcgPasses P Q O fuel' (Array.ofFn t.step) (Array.ofFn t.grad) (Array.ofFn t.sd) (Array.ofFn t.freeL)
+          (Array.ofFn t.freeU) (Array.ofFn t.freeUb) (Array.ofFn t.resid) t.k t.reduct
+      | .inr t => t
+    else s
+
+/-- `ctcg n m p fuel | g ; H ; xl ; xu ; aub ; bub ; aeq ; delta`: the first phase of
+`constrained_tangential_byrd_omojokun` (Alg/Ctcg.lean `ctcg`) with the checked exact projection -/
+def doCtcg (n m p fuel : ℕ) (parts : List String) : String :=
+  match parts with
+  | [g, H, lo, hi, A, b, E, d] =>
+    match ratsOf g, ratsOf H, optsOf lo, optsOf hi, ratsOf A, ratsOf b, ratsOf E, ratsOf d with
+    | some g, some H, some lo, some hi, some A, some b, some E, some d =>
+      if g.size ≠ n || H.size ≠ n * n || lo.size ≠ n || hi.size ≠ n || A.size ≠ m * n || b.size ≠ m || E.size ≠ p * n || d.size ≠ 1 then "bad-op" else
+      let P : Cobyqa.Ctcg.CProb n m p Rat :=
+        { H := fun i j => H[i.val * n + j.val]!, g := vecOf g, xl := fun i => lo[i.val]!, xu := fun i => hi[i.val]!,
+          aub := fun j i => A[j.val * n + i.val]!, bub := fun j => b[j.val]!, aeq := fun k i => E[k.val * n + i.val]!, delta := d[0]! }
+      let eps : Rat := 1 / 2 ^ 52
+      let Q : Cobyqa.Tcg.Params n Rat :=
+        { aTr := Cobyqa.Tcg.checkedATr P.delta (proposeATr n P.delta),
+          descThr := fun gr => 10 * eps * n * max 1 (floatToRat (Float.sqrt (ratToFloat (gr ⬝ᵥ gr))) * (1 + 1 / 2 ^ 40)),
+          tiny := 0, rtol := 1 / 100000000 }
+      let O : Cobyqa.Ctcg.Oracle n m Rat :=
+        { proj := Cobyqa.Ctcg.checkedProj P (proposeProj P.aub P.aeq), nAct := rankOf P.aub P.aeq }
+      let s0 := Cobyqa.Ctcg.cinit P O
+      let st := (runCtcgPasses P Q O fuel (Array.ofFn s0.step) (Array.ofFn s0.grad) (Array.ofFn s0.sd) (Array.ofFn s0.freeL)
+        (Array.ofFn s0.freeU) (Array.ofFn s0.freeUb) (Array.ofFn s0.resid) s0.k s0.reduct).step
+      "ok " ++ " ".intercalate ((listFin n).map fun i => showRat (st i))
+    | _, _, _, _, _, _, _, _ => "bad-op"
+  | _ => "bad-op"
+
 /-- `tcg2 n fuel fuel2 improve | ...`: `tangential_byrd_omojokun` as a whole (Alg/TcgImprove.lean `tcgFull`); the answer
 starts with `ok1` when the first phase ended on the trust-region boundary -/
 def doTcg2 (n fuel fuel2 : ℕ) (imp : Bool) (parts : List String) : String :=
@@ -379,6 +451,10 @@ def handleAlg (line : String) : String :=
     | ["kkt", n, m, me, r] => match n.toNat?, m.toNat?, me.toNat?, r.toNat? with
       | some n, some m, some me, some r => doKkt n m me r parts | _, _, _, _ => "bad-op"
     | ["tcg", n, fuel] => match n.toNat?, fuel.toNat? with | some n, some f => doTcg n f parts | _, _ => "bad-op"
+    | ["ctcg", n, m, p, fuel] =>
+      match n.toNat?, m.toNat?, p.toNat?, fuel.toNat? with
+      | some n, some m, some p, some f => doCtcg n m p f parts
+      | _, _, _, _ => "bad-op"
     | ["tcg2", n, fuel, fuel2, imp] =>
       match n.toNat?, fuel.toNat?, fuel2.toNat? with
       | some n, some f, some f2 => doTcg2 n f f2 (imp == "1") parts
